@@ -10,7 +10,7 @@ def run(tier):
         "C43", tier, crates=["pallas_hardano"],
         entry_rx=r"pallas_hardano::storage::immutable::",
         table_name="panic_C43.json",
-        floors={"entries": 70, "closure": 70, "sites": 9},
+        floors={"entries": 60, "closure": 60, "sites": 3},
         anchors=[r"secondary::Reader as core::iter::traits::iterator::Iterator>::next$", r"chunk::Reader::read_middle_block$",
                  r"primary::Reader::read_offset$", r"immutable::read_blocks_from_point$", r"immutable::get_tip$"],
         explanation="Decides the structural clause of C43: no panic-capable construct on file-derived data in the immutable-db readers "
